@@ -119,6 +119,24 @@ def _lower_is_ascii_for(tables):
     return []
 
 
+def _kw_lower_check():
+    """`type` keywords are compared after str.lower(); the model lowers A-Z and U+212A (KELVIN SIGN -> 'k') only: check
+    that no other code point lower-cases into ASCII lower-case letters"""
+    odd = []
+    for cp in range(sys.maxunicode + 1):
+        if 0xD800 <= cp <= 0xDFFF:
+            continue
+        c = chr(cp)
+        if "A" <= c <= "Z":
+            continue
+        low = c.lower()
+        if low != c and all("a" <= x <= "z" for x in low):
+            odd.append(cp)
+    if odd != [0x212A]:
+        return ["str.lower() maps %s into ASCII letters; the model's keyword lower-casing knows only A-Z and U+212A" % [hex(x) for x in odd]]
+    return []
+
+
 _CACHE = {}
 
 
@@ -142,6 +160,7 @@ def _extract_c19():
     except ValueError as e:
         return ["trool tables: %s" % e]
     problems += _parse_trool_shape(util)
+    problems += _kw_lower_check()
     problems += _lower_is_ascii_for(yes + no + maybe)
     try:
         default_context, auto_tags, transforms = _decorated_tables(generic)
